@@ -231,25 +231,30 @@ Definition rd_tensor_leaves (limit : option Z) (t : rd_tentry) : option (list rd
     end
   else Some [mkLeaf (te_loc t) (te_range t) RdLoad].
 
-Fixpoint rd_concat_opt {A} (l : list (option (list A))) : option (list A) :=
-  match l with
-  | [] => Some []
-  | None :: _ => None
-  | Some x :: r => match rd_concat_opt r with None => None | Some xs => Some (x ++ xs) end
+Definition rd_concat_opt {A} (l : list (option (list A))) : option (list A) :=
+  match rd_all_ok l with None => None | Some xs => Some (concat xs) end.
+
+(* the tensor reads an entry is made of, each with the buffer limit that applies to it:
+   ChunkedTensorIOPreparer.prepare_read passes buffer_size_limit_bytes on to every chunk; ShardedTensorIOPreparer never
+   tiles; an ObjectEntry is one whole-object torch.load read (like a torch_save tensor) *)
+Definition rd_entry_parts (limit : option Z) (e : rd_entry) : list (option Z * rd_tentry) :=
+  match e with
+  | RdETensor t => [(limit, t)]
+  | RdEChunked cs => map (pair limit) cs
+  | RdESharded ss => map (pair None) ss
+  | RdEObject loc => [(None, mkTentry loc None false 1 [] true)]
+  | RdEPrimitive => []
   end.
 
+Definition rd_parts (limit : option Z) (es : list rd_entry) : list (option Z * rd_tentry) :=
+  flat_map (rd_entry_parts limit) es.
+
 Definition rd_entry_leaves (limit : option Z) (e : rd_entry) : option (list rd_leaf) :=
-  match e with
-  | RdETensor t => rd_tensor_leaves limit t
-  | RdEChunked cs => rd_concat_opt (map (rd_tensor_leaves limit) cs)
-  | RdESharded ss => rd_concat_opt (map (rd_tensor_leaves None) ss)
-  | RdEObject loc => Some [mkLeaf loc None RdLoad]
-  | RdEPrimitive => Some []
-  end.
+  rd_concat_opt (map (fun lt : option Z * rd_tentry => rd_tensor_leaves (fst lt) (snd lt)) (rd_entry_parts limit e)).
 
 (* restore: every entry of the rank's manifest, limit = None;  read_object: one entry, limit = memory_budget_bytes *)
 Definition rd_read_plan (limit : option Z) (es : list rd_entry) : option (list rd_leaf) :=
-  rd_concat_opt (map (rd_entry_leaves limit) es).
+  rd_concat_opt (map (fun lt : option Z * rd_tentry => rd_tensor_leaves (fst lt) (snd lt)) (rd_parts limit es)).
 
 (* ------------------------------------------------------------------ a concrete loader (non-vacuity, correspondence) *)
 (* a self-delimiting toy archive: one length byte followed by that many payload bytes.  It satisfies the law assumed of
